@@ -403,7 +403,7 @@ pub fn run(tier: Tier) -> i32 {
     // E2
     let mut e2acc = Acc::new();
     let model = Model { lines: std::sync::Arc::new(e2_lines()) };
-    let res = e2::run("C06", model, tier.pick(&[6], &[7, 8]), tier.pick(30_000_000, 300_000_000), &mut e2acc);
+    let res = e2::run_opts("C06", model, tier.pick(&[6], &[9]), tier.pick(30_000_000, 900_000_000), tier.thorough(), &mut e2acc);
     e2acc.evals += e2acc.transitions;
     e2acc.distinct_measured = Some(e2acc.states);
     let acc = acc.merge(e2acc);
